@@ -14,6 +14,9 @@ Inductive kind :=
   | KSpec                          (* writer.Sink, observation-only: success without exactly the stored bytes / bytes without the format *)
   | KConcStream | KConcSet | KConcRes | KConcOrder | KOverlap   (* concurrent calls *)
   | KFsRes | KFsBytes              (* FileSink *)
+  | KFsRetryPrefix                 (* FileSink, observation-only: success, the whole value is contiguous in the file written last, but a
+                                      proper prefix of it was left at the end of the previous file by the failed first attempt *)
+  | KFsTorn                        (* FileSink, observation-only: success although the value is in no file in one piece / other bytes were written *)
   | KChanExactlyOne | KChanArm | KChanEarly | KChanLatency.     (* ChannelSink *)
 
 Fixpoint eq_list {A} (eq : A -> A -> bool) (a c : list A) : bool :=
@@ -123,10 +126,51 @@ Definition check_h (c : hcase) : list kind :=
   (* generous: the call took no more than 50x the time at which it should have returned (+ 50 x 20 ms) *)
   (if Z.leb (ho_latency o) (50 * (ret_time T + 20)) then [] else [KChanLatency]).
 
-(* ---------- all together ---------- *)
-Inductive scase := CW (c : wcase) | CC (c : ccase) | CF (c : fcase) | CH (c : hcase).
-Definition check (c : scase) : N * list kind :=
-  match c with CW x => (1%N, check_w x) | CC x => (2%N, check_c x) | CF x => (3%N, check_f x) | CH x => (4%N, check_h x) end.
+(* ---------- CP: FileSink.Process with writes that fail part-way (RLIMIT_FSIZE = limit bytes per file) ----------
+   The harness child process lowers RLIMIT_FSIZE, so a write(2) that would take a file beyond [p_limit] bytes accepts only what
+   still fits and fails (EFBIG).  [p_fresh]: rotation with time-stamped names is on, so reopen() opens a fresh, empty file;
+   otherwise reopen() reopens the same (full) file.  After every call the harness lists, in file-name (= creation) order,
+   the bytes the call added to each file. *)
+Definition limited (room : N) : writer := fun buf => if N.leb (lenN buf) room then (lenN buf, false) else (room, true).
+Record pobs := { po_res : N; po_deltas : list (list N) }.
+Record pcase := { p_limit : N; p_fresh : bool; p_steps : list (list N * pobs) }.
 
+Definition nonnil (l : list N) : bool := match l with [] => false | _ => true end.
+Fixpoint is_prefix (p l : list N) : bool :=
+  match p, l with [], _ => true | x :: p', y :: l' => N.eqb x y && is_prefix p' l' | _, [] => false end.
+
+Fixpoint run_p (L : N) (fresh div : bool) (sz : N) (i : N) (steps : list (list N * pobs)) : list (N * kind) :=
+  match steps with
+  | [] => []
+  | (val, o) :: rest =>
+      let room := (L - sz)%N in
+      let F := {| fs_open_ok := true; fs_w1 := limited room; fs_reopen_ok := true; fs_w2 := limited (if fresh then L else 0%N) |} in
+      let '(r, calls) := filesink_process PFile 0 [(json_fmt, val)] F in
+      let ts := map taken calls in
+      let expect := filter nonnil (if fresh then ts else [concat ts]) in
+      let sz' := match calls with
+                 | [_; c2] => if fresh then lenN (taken c2) else (sz + lenN (concat ts))%N
+                 | _ => (sz + lenN (concat ts))%N end in
+      let mm := if div then [] else
+        (if N.eqb (res_code r) (po_res o) then [] else [KFsRes]) ++
+        (if eq_list eqNl expect (po_deltas o) then [] else [KFsBytes]) in
+      let oracle :=
+        if N.eqb (po_res o) 0%N then
+          if eq_list eqNl (po_deltas o) (filter nonnil [val]) then []          (* exactly the value, in one piece, in one file *)
+          else if eqNl (last (po_deltas o) []) val && is_prefix (concat (removelast (po_deltas o))) val then [KFsRetryPrefix]
+          else [KFsTorn]
+        else [] in
+      map (fun k => (i, k)) (mm ++ oracle) ++ run_p L fresh (div || match mm with [] => false | _ => true end) sz' (N.succ i) rest
+  end.
+Definition check_p (c : pcase) : list (N * kind) := run_p (p_limit c) (p_fresh c) false 0%N 0%N (p_steps c).
+
+(* ---------- all together ---------- *)
+Inductive scase := CW (c : wcase) | CC (c : ccase) | CF (c : fcase) | CH (c : hcase) | CP (c : pcase).
+Definition check (c : scase) : N * list (N * kind) :=
+  let z := map (fun k => (0%N, k)) in
+  match c with CW x => (1%N, z (check_w x)) | CC x => (2%N, z (check_c x)) | CF x => (3%N, z (check_f x)) | CH x => (4%N, z (check_h x))
+             | CP x => (5%N, check_p x) end.
+
+(* (case, (call index, sink kind, kind)) *)
 Definition mismatches (cs : list (N * scase)) : list (N * (N * N * kind)) :=
-  flat_map (fun ic => let '(opk, ks) := check (snd ic) in map (fun k => (fst ic, (0%N, opk, k))) ks) cs.
+  flat_map (fun ic => let '(opk, ks) := check (snd ic) in map (fun k => (fst ic, (fst k, opk, snd k))) ks) cs.
